@@ -256,3 +256,52 @@ def implied_lits(body, block, facts):
         if sb not in pf.unexplained:
             explained.add(sb)
     return out, explained
+
+
+def reaches_avoiding(body, start_nodes, target_block, avoid, facts, max_states=4000):
+    """Path-sensitive reachability: can `target_block` be reached from one of `start_nodes` (CFG node ids: blocks or switch-edge
+    nodes) along a *feasible* path none of whose switch edges asserts a literal accepted by `avoid(Lit)`?  Bool flags are tracked
+    as in PathFacts: an edge on a flag bound to a constant is pruned when it contradicts the constant, an edge on a flag bound to
+    a comparison / call asserts that definition's literal (so `let unchanged = !is_x && a == b; if unchanged { return }` cuts the
+    paths the same way the nested `if` does)."""
+    from .conds import _decode_bool, _strip_var, decode
+    from .defuse import du_of
+    pf = pathfacts_of(body)
+    cfg = cfg_of(body)
+    du = du_of(body)
+    n = cfg.n
+    seen = set()
+    work = [(s, frozenset()) for s in start_nodes]
+    while work and len(seen) < max_states:
+        x, alt = work.pop()
+        if (x, alt) in seen:
+            continue
+        seen.add((x, alt))
+        if x < n:
+            if x == target_block:
+                return True
+            outs = pf._block_out(frozenset([alt]), x)
+        else:
+            outs = pf._edge_out(frozenset([alt]), x)
+            if not outs:
+                continue        # infeasible for this binding
+            s_, k_, v_, tgt_ = cfg.edge_info[x]
+            lits = []
+            l0 = decode(body, s_, v_, facts)
+            l0.edge = (s_, k_, v_, tgt_)
+            lits.append(l0)
+            for a2 in outs:
+                for f in a2 - alt:
+                    if f[0] == "A":
+                        _, db, di, truth, sb, kk = f
+                        blk = body.blocks[db]
+                        t = du.call_term(blk.term, db, 22) if di == -1 else du.rvalue_term(blk.stmts[di].rv, 22)
+                        lits.append(_decode_bool(_strip_var(t), truth, sb, t))
+            if any(avoid(l) for l in lits):
+                continue
+        for a2 in outs:
+            # keep only the flag bindings (path facts are not needed for the search and would blow up the state space)
+            a3 = frozenset(f for f in a2 if f[0] == "B")
+            for y in cfg.succ[x]:
+                work.append((y, a3))
+    return False
